@@ -386,6 +386,26 @@ func augmentOriginalFile(file *ast.File, overrides map[string]overrideInfo) {
 						d.Specs[j] = nil
 					}
 				case *ast.ValueSpec:
+					if d.Tok == token.CONST && len(d.Specs) > 1 {
+						// A spec of a constant group takes part in the iota numbering and
+						// in the implicit repetition of the previous expression. If all of
+						// its names are overridden, removing the spec would renumber (or
+						// break) the specs that follow it: blank the names instead and
+						// keep the spec in place.
+						all := true
+						for _, name := range s.Names {
+							if _, ok := overrides[name.Name]; !ok {
+								all = false
+							}
+						}
+						if all {
+							anyChange = true
+							for _, name := range s.Names {
+								name.Name = `_`
+							}
+							continue
+						}
+					}
 					if len(s.Names) == len(s.Values) {
 						// multi-value context
 						// e.g. var a, b = 2, foo[int]()
